@@ -59,7 +59,8 @@ def run_property(pid, tier="quick", seed=0):
             status["harness_error"].append("conformance %s: %s" % (name, detail))
 
     # 2. symbolic exploration
-    agg = core.explore(hnames, tier=tier, opts=opts, time_budget=plan.get("time_budget"))
+    budget = plan.get("time_budget", 420 if tier == "quick" else 2400)
+    agg = core.explore(hnames, tier=tier, opts=opts, time_budget=budget)
 
     # 3. vacuity: every expected obligation reached on a feasible path, for every case
     for hn in hnames:
